@@ -71,14 +71,19 @@ impl<const SENDER: bool> RawChannel<SENDER> {
         self.cookie
     }
 
+    /// Marks the channel end as being claimed, such that dropping it closes nothing.
+    ///
+    /// While a claim is in flight, the client is responsible for the channel end. It closes the
+    /// end again, should the claim succeed after it has been abandoned.
+    pub(crate) fn begin_claim(&mut self) {
+        debug_assert!(!self.claimed);
+        self.state = State::Closed;
+    }
+
     pub(crate) fn set_claimed(&mut self) {
         debug_assert!(!self.claimed);
         self.claimed = true;
-    }
-
-    /// Marks the channel end as not owned (any more), such that dropping it closes nothing.
-    pub(crate) fn set_closed(&mut self) {
-        self.state = State::Closed;
+        self.state = State::Open;
     }
 
     fn begin_close(&mut self) -> Result<CloseChannelEndFuture, Error> {
